@@ -326,6 +326,10 @@ package scanner
 //@ pred isDigit(c byte) := '0' <= c && c <= '9'
 //@ pred startsDirective(f stepFunc) := in(f, stateRoot, stateExpectKeyword)
 
+// The @exact-... clauses: exactness of lexeme ends (C12, second sentence, per state): a schema or enum body ends at the byte BEFORE the byte that
+// follows it (its length comes from the schema library); an unquoted parameter ends before its separator, a quoted one at
+// its closing quote; a one-line annotation ends before '#'; a block annotation before its "*/". A parameter / annotation
+// begins at the byte its start state is run on. (gFree: one past the end of the last closed lexeme.)
 //@ functype stepFunc(s, c)
 //@   property C01,C12,C13,C08
 //@   requires s != nil && s.step == self && fileOK(s) && paramsOK(s)
@@ -358,6 +362,14 @@ package scanner
 //@   ensures[C13,@kw-start-complete] imp(startsDirective(self) && (isKwPrefix(char(c)) || ('1' <= c && c <= '5')), result == nil && s.gOpen == 1)
 //@   ensures[C13,@separator] imp(self == stateParameterOrAnnotation,
 //@       iff(result == nil, isSeparator(c)) && imp(result != nil, result.Index == old(s.curIndex)))
+//@   ensures[C12,@exact-body-end] imp((self == stateSchemaClosed || self == stateEnumBodyClose) && result == nil, s.gOpen == 0 && s.gFree == old(s.curIndex))
+//@   ensures[C12,@exact-separator-emits-nothing] imp(self == stateParameterOrAnnotation, s.gFree == old(s.gFree) && s.gOpen == old(s.gOpen))
+//@   ensures[C12,@exact-parameter-end] imp(self == stateParameterWoQuoted && in(c, ' ', '\t', '\n', '\r', 0, '#') && result == nil, s.gFree == old(s.curIndex))
+//@   ensures[C12,@exact-parameter-goes-on] imp(self == stateParameterWoQuoted && !in(c, ' ', '\t', '\n', '\r', 0, '#'), result == nil && s.gOpen == 2 && s.gFree == old(s.gFree) && s.gOpenAt == old(s.gOpenAt))
+//@   ensures[C12,@exact-quoted-end] imp(self == stateParameterInQuoted && c == '"' && result == nil, s.gOpen == 0 && s.gFree == old(s.curIndex) + 1)
+//@   ensures[C12,@exact-parameter-begin] imp(self == stateParameterStart && result == nil, s.gOpen == 2 && s.gOpenAt == old(s.curIndex))
+//@   ensures[C12,@exact-annotation-end] imp(self == stateAnnotation && c == '#' && result == nil, s.gOpen == 0 && s.gFree == old(s.curIndex))
+//@   ensures[C12,@exact-block-annotation-end] imp(self == stateMultilineAnnotation && result == nil && s.gOpen == 0, s.gFree + 1 == old(s.curIndex))
 //@   ensures s.finds.arr != s.stack.arr
 //@   ensures queueA(s)
 //@   ensures queueB(s)
